@@ -107,6 +107,7 @@ type Exec struct {
 
 	inlined   map[string]bool
 	byContr   map[string]bool
+	localNames map[string]bool
 	// calleeFrame: captured variables of the closure whose contract is being applied
 	calleeFrame *Frame
 	intrUsed  map[string]bool
